@@ -34,7 +34,7 @@ ASSUMPTIONS = ['options are identified with their position in the constraint\'s 
                'pre-removal the processor re-indexes options - the comparison maps back through DesVar.options']
 LEANCHECK_MODULES = ['Adsg.Model.Constraints', 'Adsg.Props.C13']
 TYPES = ['linked', 'permutation', 'unordered', 'unordered_norepl']
-WALK_KINDS = {'confirmed-set', 'next-choices', 'leaf-nodes', 'order-dependence', 'reachable-set-missing',
+WALK_KINDS = {'api-exc', 'confirmed-set', 'next-choices', 'leaf-nodes', 'order-dependence', 'reachable-set-missing',
               'reachable-set-extra', 'over-pruned', 'infeasible-state-but-completable',
               'infeasible-graph-but-admissible-exists', 'feasible-leaf-not-admissible', 'apply-exc'}
 
